@@ -163,7 +163,7 @@ class StructParam(Parameter):
                         return result
                     finally:
                         pobj.insideRW.value -= 1
-                        if len(result) < len(funclist):
+                        if 0 < len(result) < len(funclist):
                             # failed in between: the members treated so far have changed
                             setattr(self, name, dict(getattr(self, name), **result))
 
